@@ -205,32 +205,34 @@ def r1_inclusion_and_conflicts(chk):
     chk.floor('C17.R1', 20, 'dialect pairs')
 
 
+class _Collector(object):
+    def __init__(self, model):
+        self.model = model
+        self.out = []
+
+    def ob(self, rule, key, ok, where_='', detail=''):
+        self.out.append((key, bool(ok), detail))
+
+
 def _subset_job(args):
     repo, subset = args
-    model = _subset_job.models.setdefault(repo, SourceModel(repo))
-    base = Dialect(model, dict((k, True) for k in subset))
+    model = _subset_job.models.get(repo)
+    if model is None:
+        model = _subset_job.models[repo] = SourceModel(repo)
+    base = dialect(model, dict((k, True) for k in subset))
     if not base.buildable:
         return subset, None
-    res = []
-    opts = all_option_names(model)
-    for o in opts:
+    col = _Collector(model)
+    pairs = 0
+    for o in all_option_names(model):
         if o in subset:
             continue
-        big = Dialect(model, dict((k, True) for k in subset + (o,)))
+        big = dialect(model, dict((k, True) for k in subset + (o,)))
         if not big.buildable:
             continue
-        ps = base.prodset()
-        missing = sorted(ps - big.prodset())
-        bad = []
-        for state, tok, resolution in big.sr:
-            c = [x for x in reduce_candidates(big, state, tok) if x in ps] if resolution == 'shift' else ['reduce']
-            if c:
-                bad.append(('sr', tok, c))
-        for state, kept, rejected in big.rr:
-            if (rejected.name, tuple(rejected.prod)) in ps:
-                bad.append(('rr', rejected.name, tuple(rejected.prod)))
-        res.append((o, missing, bad, len(big.sr), len(big.rr)))
-    return subset, res
+        pairs += 1
+        check_pair(col, 'C17.R1t', base, big, '{%s}' % ','.join(subset), '{..+%s}' % o)
+    return subset, (pairs, col.out)
 
 
 _subset_job.models = {}
@@ -238,6 +240,8 @@ _subset_job.models = {}
 
 def r1_thorough_all_subsets(chk):
     model = chk.model
+    chk.doc('C17.R1t', 'R1 (inclusion or simulation, conflict discipline) for every buildable subset of the nine '
+                       'options extended by one more option')
     opts = all_option_names(model)
     subsets = []
     for k in range(len(opts) + 1):
@@ -245,20 +249,17 @@ def r1_thorough_all_subsets(chk):
     jobs = [(chk.repo, s) for s in subsets]
     pairs = built = 0
     with ProcessPoolExecutor(max_workers=min(16, os.cpu_count() or 4)) as ex:
-        for subset, res in ex.map(_subset_job, jobs, chunksize=8):
+        for subset, res in ex.map(_subset_job, jobs, chunksize=4):
             if res is None:
                 continue
             built += 1
-            for o, missing, bad, nsr, nrr in res:
-                pairs += 1
-                ok = not missing and not bad
-                if not ok or pairs <= 3:
-                    chk.ob('C17.R1t', '{%s}<={..+%s}' % (','.join(subset), o), ok, PARSER,
-                           'missing %s; conflicts discarding base reductions %s' % (missing[:2], bad[:2]))
-    chk.ob('C17.R1t', 'all-buildable-subsets', True, PARSER, '')
+            np_, obs = res
+            pairs += np_
+            for key, ok, detail in obs:
+                chk.ob('C17.R1t', key, ok, PARSER, detail)
     chk.note('thorough: %d of %d option subsets buildable, %d (subset, subset+option) pairs checked' % (
         built, len(subsets), pairs))
-    chk.doc('C17.R1t', 'R1 for every buildable subset of the nine options extended by one option')
+    chk.floor('C17.R1t', 1000, 'pairs of dialects')
 
 
 def r2_shared_terms(chk):
